@@ -233,8 +233,14 @@ func genOp(r *emit.Rng, gauge bool) op {
 			vals := []float64{0, 1, -2.5, 7, 100.5, math.Inf(1), math.NaN(), 1e300, -0.0, 3}
 			return op{kind: 0, v: vals[r.Intn(len(vals))]}
 		case 2, 3:
+			if r.Chance(1, 6) { // infinite and NaN amounts: the gauge holds the IEEE sum (Inf + -Inf = NaN), nothing saturates
+				return op{kind: 1, v: []float64{math.Inf(1), math.Inf(-1), math.NaN(), -1e300, 1e308}[r.Intn(5)]}
+			}
 			return op{kind: 1, v: grid[r.Intn(len(grid))]}
 		case 4:
+			if r.Chance(1, 6) {
+				return op{kind: 2, v: []float64{math.Inf(1), math.Inf(-1), math.NaN(), -1e308}[r.Intn(4)]}
+			}
 			return op{kind: 2, v: grid[r.Intn(len(grid))]}
 		case 5:
 			return op{kind: 3}
@@ -445,6 +451,36 @@ func runC01(c *cli.Ctx) error {
 			}
 			if bad > 0 {
 				w.Extra["direct_failures"] = []map[string]interface{}{{"index": -1, "what": fmt.Sprintf("%d of 20 SetToCurrentTime calls exposed a value that is no clock reading taken during the call", bad)}}
+			}
+		}
+		if !gauge {
+			// A rejected AddWithExemplar (negative amount: documented panic) has no effect at all: neither the value nor
+			// the exemplar of the last accepted increment changes.
+			bad, what := 0, ""
+			for i := 0; i < 20; i++ {
+				c := prometheus.NewCounter(prometheus.CounterOpts{Name: "e"})
+				ea := c.(prometheus.ExemplarAdder)
+				if i%2 == 0 {
+					ea.AddWithExemplar(float64(1+i), prometheus.Labels{"trace": "accepted"})
+				}
+				var before, after dto.Metric
+				c.Write(&before)
+				func() {
+					defer func() { recover() }()
+					if i%4 < 2 {
+						ea.AddWithExemplar(-float64(1+i%3), prometheus.Labels{"trace": "rejected"})
+					} else {
+						ea.AddWithExemplar(-0.5, nil)
+					}
+				}()
+				c.Write(&after)
+				if before.String() != after.String() {
+					bad++
+					what = fmt.Sprintf("before %s, after %s", before.String(), after.String())
+				}
+			}
+			if bad > 0 {
+				w.Extra["direct_failures"] = []map[string]interface{}{{"index": -1, "what": fmt.Sprintf("%d of 20 rejected AddWithExemplar calls (negative amount) changed what the counter exposes: %s", bad, what)}}
 			}
 		}
 		if err := w.Flush(); err != nil {
